@@ -68,6 +68,11 @@ func c04Inputs(g *Gen, n int) [][]byte {
 		"{\"publicKey\":[],\"endpoints\":\"x\",\"source\":7}", "{\"publicKey\":{\"id\":{},\"publicKeyPem\":[1]},\"endpoints\":{\"sharedInbox\":[{}]},\"source\":{\"content\":{\"en\":[]},\"mediaType\":{}}}"} {
 		add([]byte(s))
 	}
+	// every type name the package knows - including its internal pseudo types - on one document: the per-type
+	// decoders accept any of them, and the value they return must survive the follow-up operations
+	for _, tn := range append(append([]ap.ActivityVocabularyType{"IRI", "ItemCollection", "IRICollection", "Bogus"}, ap.Types...), ap.GenericTypes...) {
+		add([]byte(`{"type":"` + string(tn) + `","id":"http://example.com/y","name":"n","to":["http://example.com/a"],"items":["http://example.com/b"],"orderedItems":["http://example.com/c"],"object":{"type":"` + string(tn) + `"},"totalItems":2}`))
+	}
 	add(bytes.Repeat([]byte("["), 100000))
 	add(bytes.Repeat([]byte("{\"a\":"), 50000))
 	add([]byte(strings.Repeat("{\"object\":", 280) + "\"https://example.com/x\"" + strings.Repeat("}", 280)))
